@@ -285,6 +285,11 @@ pub trait RawUniverse: Sync {
     fn bounds(&self) -> Value;
     fn parts(&self) -> usize;
     fn part(&self, i: usize, f: &mut dyn FnMut(Pos));
+    /// Some(moves): only these moves are expanded at the candidate itself (forced first ply);
+    /// deeper plies are unrestricted
+    fn first_moves(&self, _p: &Pos) -> Option<Vec<Mv>> {
+        None
+    }
 }
 
 /// Called for every candidate with what the builder answered.
@@ -313,11 +318,15 @@ pub fn run_raw(u: &dyn RawUniverse, bounds: &Bounds, mon: &dyn Monitor, cand: &d
                 match built {
                     Ok(Ok(board)) => {
                         t.hit("builder-accepted");
+                        let first = u.first_moves(&raw);
                         let rd = RootDesc::Raw(raw);
                         if sink.want_sample(t.evals) {
                             sink.sample(|| json!({"universe": u.name(), "state": shredder(&board), "root": rd.json()}));
                         }
-                        dfs(&rd, &board, bounds, mon, sink, &mut t);
+                        match first {
+                            None => dfs(&rd, &board, bounds, mon, sink, &mut t),
+                            Some(first) => dfs_first(&rd, &board, bounds, mon, sink, &mut t, &first),
+                        }
                     }
                     Ok(Err(_)) => t.hit("builder-rejected"),
                     Err(_) => t.hit("builder-panicked"),
@@ -987,16 +996,28 @@ impl RawUniverse for EpCheck {
 pub struct Caged {
     pub inner: Box<dyn RawUniverse>,
     pub variants: u8,
+    /// cage the king of the side to move (true) or of the side that has just moved (false: the
+    /// mover's moves then include mating moves against a king without flight squares)
+    pub mover: bool,
 }
-fn cage(p: &Pos, variant: u8) -> Option<Pos> {
+/// the same placement seen with `c` to move (for asking about c's king steps, checkers and pins)
+fn seen_by(p: &Pos, c: Col) -> Pos {
+    let mut v = p.clone();
+    if v.stm != c {
+        v.stm = c;
+        v.ep = None;
+    }
+    v
+}
+fn cage(p: &Pos, variant: u8, mover: bool) -> Option<Pos> {
     if p.sound().is_err() {
         return None;
     }
-    let c = p.stm;
+    let c = if mover { p.stm } else { p.stm.other() };
     let them = c.other();
     let k = p.king_sq(c)?;
-    let checkers = p.checkers();
-    let pinned = p.pinned();
+    let checkers = seen_by(p, c).checkers();
+    let pinned = seen_by(p, c).pinned();
     let mut q = p.clone();
     let mut added = 0;
     for d in DIRS8 {
@@ -1004,7 +1025,7 @@ fn cage(p: &Pos, variant: u8) -> Option<Pos> {
             Some(s) => s,
             None => continue,
         };
-        if q.sq[s as usize].is_some() || !q.legal_moves().contains(&Mv::new(k, s)) {
+        if q.sq[s as usize].is_some() || !seen_by(&q, c).legal_moves().contains(&Mv::new(k, s)) {
             continue;
         }
         // candidate additions: (square, kind, colour)
@@ -1044,7 +1065,8 @@ fn cage(p: &Pos, variant: u8) -> Option<Pos> {
             }
             let mut q2 = q.clone();
             q2.sq[n as usize] = Some((kind, col));
-            if q2.sound().is_ok() && q2.checkers() == checkers && q2.pinned() == pinned && !q2.legal_moves().contains(&Mv::new(k, s)) {
+            let v2 = seen_by(&q2, c);
+            if q2.sound().is_ok() && v2.checkers() == checkers && v2.pinned() == pinned && !v2.legal_moves().contains(&Mv::new(k, s)) {
                 q = q2;
                 added += 1;
                 break;
@@ -1059,24 +1081,138 @@ fn cage(p: &Pos, variant: u8) -> Option<Pos> {
 }
 impl RawUniverse for Caged {
     fn name(&self) -> String {
-        format!("S-CAGED[{}]x{}", self.inner.name(), self.variants)
+        format!("S-CAGED{}[{}]x{}", if self.mover { "" } else { "(other king)" }, self.inner.name(), self.variants)
     }
     fn bounds(&self) -> Value {
-        json!({"base": self.inner.bounds(), "cage_variants": self.variants,
+        json!({"base": self.inner.bounds(), "cage_variants": self.variants, "caged_king": if self.mover { "side to move" } else { "side not to move" },
                "cage": "for each empty legal king step: first of {enemy N on the 8 knight squares, enemy P on the 2 attacking squares (never next to the king), own P / B / N on the square} that removes the step, keeps checkers and pinned set and soundness; menu order by variant"})
     }
     fn parts(&self) -> usize {
         self.inner.parts()
     }
+    fn first_moves(&self, p: &Pos) -> Option<Vec<Mv>> {
+        self.inner.first_moves(p)
+    }
     fn part(&self, i: usize, f: &mut dyn FnMut(Pos)) {
         let variants = self.variants;
+        let mover = self.mover;
         self.inner.part(i, &mut |p: Pos| {
             for v in 0..variants {
-                if let Some(q) = cage(&p, v) {
+                if let Some(q) = cage(&p, v, mover) {
                     f(q);
                 }
             }
         });
+    }
+}
+
+/// Castling-right closure of another universe: every candidate whose mover's king stands on its back
+/// rank is emitted again with a rook of the mover on each empty back-rank square reachable from the
+/// king along the rank, carrying the corresponding castling right (Chess960 geometries included:
+/// rook directly next to the king, king already on its destination file, ...).
+pub struct AddCastle {
+    pub inner: Box<dyn RawUniverse>,
+}
+impl RawUniverse for AddCastle {
+    fn name(&self) -> String {
+        format!("S-ADDCASTLE[{}]", self.inner.name())
+    }
+    fn bounds(&self) -> Value {
+        json!({"base": self.inner.bounds(), "added": "one rook of the mover on every empty back-rank square with an empty path to the king, with the matching castling right"})
+    }
+    fn parts(&self) -> usize {
+        self.inner.parts()
+    }
+    fn part(&self, i: usize, f: &mut dyn FnMut(Pos)) {
+        self.inner.part(i, &mut |p: Pos| {
+            let c = p.stm;
+            let k = match p.king_sq(c) {
+                Some(k) => k,
+                None => return,
+            };
+            if refmodel::rank_of(k) != c.back_rank() {
+                return;
+            }
+            for df in [-1i32, 1] {
+                let mut cur = k;
+                while let Some(n) = refmodel::step(cur, df, 0) {
+                    if p.sq[n as usize].is_some() {
+                        break;
+                    }
+                    cur = n;
+                    let mut q = p.clone();
+                    q.sq[n as usize] = Some((Kind::R, c));
+                    q.rights[c as usize][if df > 0 { SHORT } else { LONG }] = Some(refmodel::file_of(n));
+                    f(q);
+                }
+            }
+        });
+    }
+}
+
+/// Castle-and-play universe: every castling geometry (colour x king file b..g x wing x rook file)
+/// with one enemy rook or queen on every free square and the enemy king on two squares. The FIRST
+/// ply is forced to be a castling move (played by the library); the plies after it are unrestricted.
+/// Reaches, within three plies, captures on the squares the castling vacated and filled.
+pub struct CastlePlay {
+    pub visitors: Vec<Kind>,
+}
+impl RawUniverse for CastlePlay {
+    fn name(&self) -> String {
+        format!("S-CASTLEPLAY(visitors={})", self.visitors.len())
+    }
+    fn bounds(&self) -> Value {
+        json!({"mover_colours": 2, "king_files": "b..g", "wings": 2, "rook_files": "every file on that side of the king", "second_rook": "none, or the other wing's rook on its outermost file with its right",
+               "enemy_visitor": format!("one of {:?} on every free square", self.visitors), "enemy_king": "2 squares", "first_ply": "castling moves only (forced); then unrestricted"})
+    }
+    fn parts(&self) -> usize {
+        2 * 6
+    }
+    fn first_moves(&self, p: &Pos) -> Option<Vec<Mv>> {
+        Some(p.legal_moves().into_iter().filter(|m| p.is_castle(*m)).collect())
+    }
+    fn part(&self, i: usize, f: &mut dyn FnMut(Pos)) {
+        let c = Col::ALL[i % 2];
+        let kf = (i / 2) as u8 + 1;
+        let them = c.other();
+        let r = c.back_rank();
+        let k = sq(kf, r);
+        for rf in 0..8u8 {
+            if rf == kf {
+                continue;
+            }
+            let wing = if rf > kf { SHORT } else { LONG };
+            for second in [false, true] {
+                let mut base = Pos::empty();
+                base.stm = c;
+                put(&mut base, k, Kind::K, c);
+                put(&mut base, sq(rf, r), Kind::R, c);
+                base.rights[c as usize][wing] = Some(rf);
+                if second {
+                    let of = if wing == SHORT { 0 } else { 7 };
+                    if of == kf || of == rf {
+                        continue;
+                    }
+                    put(&mut base, sq(of, r), Kind::R, c);
+                    base.rights[c as usize][1 - wing] = Some(of);
+                }
+                for ek in [sq(1, them.back_rank()), sq(6, c.rel_rank(5))] {
+                    let mut p1 = base.clone();
+                    put(&mut p1, ek, Kind::K, them);
+                    f(p1.clone());
+                    for &vk in &self.visitors {
+                        for s in 0..64u8 {
+                            if p1.sq[s as usize].is_some() {
+                                continue;
+                            }
+                            let mut p2 = p1.clone();
+                            put(&mut p2, s, vk, them);
+                            f(p2);
+                        }
+                    }
+                }
+            }
+        }
     }
 }
 
